@@ -382,6 +382,24 @@ func (m *model) observe() {
 // imported global belongs to. An instance with a suspended call counts as well (the goroutine
 // stack references it, and the call uses its tables when it resumes).
 func (m *model) retained(callsAreRoots bool) map[int]bool {
+	var roots []int
+	for h, in := range m.insts {
+		if in.ok && !(in.closed && in.dropped) {
+			roots = append(roots, h)
+		}
+	}
+	for _, c := range m.calls {
+		if callsAreRoots && !c.finished {
+			roots = append(roots, c.inst) // the suspended call will use the instance's tables when it resumes
+		}
+	}
+	return m.closureOf(roots)
+}
+
+// closure is what instance h alone keeps reachable (including itself).
+func (m *model) closure(h int) map[int]bool { return m.closureOf([]int{h}) }
+
+func (m *model) closureOf(roots []int) map[int]bool {
 	ret := map[int]bool{}
 	var work []int
 	add := func(h int) {
@@ -390,15 +408,8 @@ func (m *model) retained(callsAreRoots bool) map[int]bool {
 			work = append(work, h)
 		}
 	}
-	for h, in := range m.insts {
-		if in.ok && !(in.closed && in.dropped) {
-			add(h)
-		}
-	}
-	for _, c := range m.calls {
-		if callsAreRoots && !c.finished {
-			add(c.inst) // the suspended call will use the instance's tables when it resumes
-		}
+	for _, h := range roots {
+		add(h)
 	}
 	for len(work) > 0 {
 		h := work[len(work)-1]
@@ -420,24 +431,21 @@ func (m *model) retained(callsAreRoots bool) map[int]bool {
 // escaped reports whether some retained instance holds, in a table slot or the funcref
 // global, a reference owned by an instance that is NOT retained (the known finding's class).
 func (m *model) escaped() (bool, string) {
-	// both while the suspended calls are still on their stacks and after they have returned
-	if bad, why := m.escapedWith(true); bad {
-		return bad, why
-	}
-	return m.escapedWith(false)
-}
-
-func (m *model) escapedWith(callsAreRoots bool) (bool, string) {
-	ret := m.retained(callsAreRoots)
-	hs := make([]int, 0, len(ret))
-	for h := range ret {
+	// Suspended calls return one by one, so any subset of them may still be on its stack:
+	// a holder counts if it is reachable with ALL suspended calls as roots, and the creator of
+	// a reference it holds must be reachable with NONE of them (reachability is monotone in the
+	// root set, so this covers every subset).
+	holders, safe := m.retained(true), m.retained(false)
+	hs := make([]int, 0, len(holders))
+	for h := range holders {
 		hs = append(hs, h)
 	}
 	sort.Ints(hs)
 	for _, h := range hs {
 		in := m.insts[h]
 		chk := func(o int, where string) string {
-			if o >= 0 && !ret[o] {
+			// fine if its creator is reachable in any case, or is kept reachable by the holder itself
+			if o >= 0 && !safe[o] && !m.closure(h)[o] {
 				return fmt.Sprintf("reference of i%d held in %s of i%d", o, where, h)
 			}
 			return ""
